@@ -166,8 +166,36 @@ def _is_identifier_expr(e: ast.AST) -> bool:
     return False
 
 
+# names (terminal attribute / variable) of dicts KEYED by identifiers, learnt tree-wide by `Tree.__init__`: `X[<identifier>] = …`,
+# `X = {<identifier>: … for …}`, or a name saying so (`sessions_by_uuid`).  sorted(X) / min(X) / max(X) / sorted(X.items()) order identifiers.
+ID_KEYED: Set[str] = set()
+_BY_ID = _re.compile(r"_by_(?:uuid|id|mac)\b")
+
+
+def _terminal_name(e: ast.AST) -> Optional[str]:
+    return e.attr if isinstance(e, ast.Attribute) else (e.id if isinstance(e, ast.Name) else None)
+
+
+def _learn_id_keyed(tree: ast.Module) -> None:
+    for n in ast.walk(tree):
+        if isinstance(n, ast.Subscript) and isinstance(n.ctx, ast.Store) and _is_identifier_expr(n.slice):
+            nm = _terminal_name(n.value)
+            if nm:
+                ID_KEYED.add(nm)
+        elif isinstance(n, (ast.Assign, ast.AnnAssign)) and isinstance(n.value, ast.DictComp) and _is_identifier_expr(n.value.key):
+            for t in (n.targets if isinstance(n, ast.Assign) else [n.target]):
+                nm = _terminal_name(t)
+                if nm:
+                    ID_KEYED.add(nm)
+        elif isinstance(n, (ast.Attribute, ast.Name)):
+            nm = _terminal_name(n)
+            if nm and _BY_ID.search(nm):
+                ID_KEYED.add(nm)
+
+
 def _mentions_identifier(call: ast.Call) -> bool:
-    """a sorted()/min()/max()/.sort() call one of whose arguments, or whose key function, mentions an identifier-valued name"""
+    """a sorted()/min()/max()/.sort() call one of whose arguments, or whose key function, mentions an identifier-valued name or a dict
+    keyed by identifiers"""
     parts = list(call.args) + [k.value for k in call.keywords]
     if isinstance(call.func, ast.Attribute) and call.func.attr == "sort":
         parts.append(call.func.value)
@@ -175,6 +203,28 @@ def _mentions_identifier(call: ast.Call) -> bool:
         for n in ast.walk(part):
             if isinstance(n, (ast.Attribute, ast.Name)) and _is_identifier_expr(n):
                 return True
+    first = call.func.value if isinstance(call.func, ast.Attribute) and call.func.attr == "sort" else (call.args[0] if call.args else None)
+    return first is not None and _orders_keys(first)
+
+
+def _orders_keys(e: ast.AST) -> bool:
+    """the ordered collection is the KEYS of an identifier-keyed dict: X, X.keys(), X.items(), list(X), or a comprehension over one of
+    them whose element mentions the key variable (`max(f.size for f in X.values())` orders sizes, not identifiers)"""
+    while isinstance(e, ast.Call) and isinstance(e.func, ast.Name) and e.func.id in ("list", "tuple", "iter", "set", "frozenset") and e.args:
+        e = e.args[0]
+
+    def keyed(x: ast.AST) -> bool:
+        if isinstance(x, ast.Call) and isinstance(x.func, ast.Attribute) and x.func.attr in ("keys", "items") and not x.args:
+            x = x.func.value
+        return _terminal_name(x) in ID_KEYED
+
+    if keyed(e):
+        return True
+    if isinstance(e, (ast.ListComp, ast.GeneratorExp, ast.SetComp)) and e.generators and keyed(e.generators[0].iter):
+        tgt = e.generators[0].target
+        kv = tgt.id if isinstance(tgt, ast.Name) else (
+            tgt.elts[0].id if isinstance(tgt, ast.Tuple) and tgt.elts and isinstance(tgt.elts[0], ast.Name) else None)
+        return kv is not None and any(isinstance(n, ast.Name) and n.id == kv for n in ast.walk(e.elt))
     return False
 
 
@@ -528,6 +578,9 @@ class Tree:
         for f in sorted(SRC.rglob("*.py")):
             rel = str(f.relative_to(SRC))
             self.files.append(FileInfo(rel, ast.parse(f.read_text())))
+        ID_KEYED.clear()
+        for fi in self.files:
+            _learn_id_keyed(fi.tree)
         self.set_attrs: Dict[str, str] = {}      # attribute / class-field name -> 'set' | 'cont'
         self.set_funcs: Set[str] = set()          # function names annotated -> Set[..]
         self.func_defs: Dict[str, List[Tuple[FileInfo, ast.FunctionDef]]] = {}
